@@ -20,23 +20,62 @@ CLAIM = dict(
           "of a valid routing tree when the tables agree with the tree (deliver_of_tree, induction over the tree); the "
           "result is invariant under per-chip RouteEquiv when every arrival direction is listed in the matching entry's "
           "sources (deliver_congr: discharges 'merged entry downstream of a default-routed chip'); composition with the "
-          "stage theorems of C03 (ValidTree), C10 (tables_exact) and C04 (RouteEquiv of minimised tables) for nets with "
-          "pairwise non-intersecting key/masks (pipeline_delivery). Tied to the code on every run: the real pipeline "
-          "(7 placers x radius x method chain x target, hand-chained and both wrappers with a hand-built SystemInfo) "
-          "runs on generated graphs/machines, Lean `deliver` is executed on the implementation's final minimised tables "
-          "for every net (base key + fillings of the don't-care bits) and its verdict compared with the deliveries "
-          "expected from the implementation's placements, allocations and endpoint constraints; stage correspondences "
-          "(C10, C04 models and the C01 type bridges) and stage hypotheses are re-checked inside every pipeline run."),
+          "stage conclusions of C03 (ValidTree), C10 (tables_exact) and C04 (RouteEquiv of minimised tables) for nets with "
+          "pairwise non-intersecting key/masks (pipeline_delivery). CAPSTONE, proved end to end for the composed MODEL "
+          "pipeline (model_pipeline_delivers, Props/C01Pipe.lean): `modelPipeline` chains the stage models as rig's "
+          "hand-chained pipeline / place_and_route_wrapper does - a C02 placer (sequential with any orders, random, "
+          "annealer; any placement function whose result is Feasible: afterPlace_delivers), C05 allocate, C03 routeNet per "
+          "net (fixed code), C10 treeTables, C04 minimiseTables (any method list, any targets, or none) - through explicit "
+          "bridge functions between the stage models' data types; for every problem in the documented domain and every "
+          "oracle input (placer orders / draws / proposals, destination-set order, RNG tape, broken-link order, radius), IF "
+          "every stage returns THEN for every net, in order, and every key matching its key/mask the packet injected at "
+          "the source chip is delivered on the FINAL tables exactly once to every allocated core of every sink, leaves "
+          "exactly once on every endpoint link, reaches nothing else and raises no flag. Every stage conclusion is "
+          "discharged by the stage's theorem (seqPlace/randPlace/saPlace_sound, alloc_sound, routeNet_valid, tables_exact, "
+          "minimiseTables_equiv + minimiseTable_equiv); the only hypotheses are the named domain restrictions. The "
+          "expected deliveries are spelled out over placement / allocation / constraints (expected_cores, expected_exits); "
+          "a concrete problem is run through modelPipeline in the kernel (ex_runs: final tables differ from the unminimised "
+          "ones) and satisfies every hypothesis (ex_domain, ex_placerDomain). Tied to the code on every run: (a) the real "
+          "pipeline (7 placers x radius x method chain x target, hand-chained and both wrappers with a hand-built "
+          "SystemInfo) runs on generated graphs/machines, Lean `deliver` is executed on the implementation's final "
+          "minimised tables for every net (base key + fillings of the don't-care bits) and its verdict compared with the "
+          "deliveries expected from the implementation's placements, allocations and endpoint constraints; stage "
+          "correspondences (C10, C04 models and the C01 type bridges) and stage hypotheses are re-checked inside every "
+          "pipeline run; (b) the Lean `modelPipeline` itself is run on generated problems with the oracle inputs recorded "
+          "from the hand-chained implementation with the sequential placer and compared stage by stage - placements "
+          "(incl. dict order), allocations, unminimised tables (incl. chip order), FINAL tables (exact per-chip equality of "
+          "the entries), device links, and the failing stage when the implementation raises a documented error."),
     design="3/C01",
-    note=("Device links (RouteEndpointConstraint) are dead links of the machine (a device is not a chip): generator "
-          "domain + theorem hypothesis. A packet returning to a chip already on its path counts as circulating. "
-          "rig_c_sa (C annealing kernel) is opaque: judged by the oracle only. Placement/allocation feasibility enter the "
-          "composition only through 'allocated cores are cores 0..17 of the sink's chip' (explicit hypothesis)."),
+    note=("PROVED: everything about the model pipeline stated above, for all inputs in the domain. Domain restrictions "
+          "of the capstone, all named hypotheses (Rig.C01Pipe.Domain / PlacerDomain) and all kept by the generators "
+          "(checked per case: tag pipe_in_domain): vertices_resources is a dictionary of dictionaries with non-negative "
+          "requirements; alignments >= 1; the core resource has capacity <= 18 on every chip (cores18); a "
+          "RouteEndpointConstraint names a link route 0..5 (endpointIsLink), its vertex is pinned by a LocationConstraint "
+          "and the link is a dead link of the machine model there - a device is not a chip (endpointDead); nets' key/masks "
+          "pairwise non-intersecting (keysDisjoint); for the placers: non-negative chip resources, same-chip groups "
+          "not pinned to two chips, reservations fit when there is no vertex, oracle orders list every vertex. "
+          "VALIDATED ONLY (differential, every run): that the stage models and the bridge functions are what the Python "
+          "code does (stage harnesses C02-C05, C10, C04 + the model-pipeline stream here, sequential placer only for the "
+          "whole chain); the hardware rules written in `visit` are trusted. FAILURES: afterPlace_only_failure proves "
+          "that after a feasible placement the model pipeline fails only with the allocator's error, "
+          "MachineHasDisconnectedSubregion (and only on a machine that is not strongly connected), "
+          "MinimisationFailedError, or an impossible oracle / a net naming an unplaced vertex; routing_tree_to_tables never "
+          "raises MultisourceRouteError in the domain (tables_total_of_valid). NOT PROVED: that the model pipeline returns "
+          "(delivery is conditional on every stage returning ok; the placers' and the allocator's own failure clauses are "
+          "those of C02 / C05 and are not re-composed here); "
+          "nothing about rig_c_sa (opaque C kernel: judged by the oracle only) or about place_and_route_wrapper's "
+          "derivation of machine and constraints from SystemInfo (that is C14's probe_to_machine_exact; here both wrappers "
+          "are exercised by the oracle stream only). A packet returning to a chip already on its path counts as "
+          "circulating."),
     technique="Lean 4 theorems over a hand-written model + differential correspondence + Lean spec as oracle")
 
 THEOREMS = ["deliveredB_iff", "delivered_no_flag", "deliver_of_tree", "deliver_of_tree_root", "deliver_congr",
             "covered_of_tree", "deliver_minimised", "pipeline_delivery", "ex_hyps", "placement_bridge",
-            "allocation_bridge"]
+            "allocation_bridge",
+            # capstone (Props/C01Pipe.lean)
+            "afterPlace_delivers", "afterPlace_placement", "runPlacer_feasible", "model_pipeline_delivers",
+            "model_pipeline_no_flag", "expected_cores", "expected_exits", "ex_runs", "ex_domain", "ex_placerDomain",
+            "tables_total_of_valid", "afterPlace_only_failure"]
 
 RULE = ("pipelines on machines 1x1..8x8 (quick) / ..24x24 (thorough), torus / mesh / partly wrapped, dead chips, links dead "
         "in one or both directions, per-chip core-count exceptions, busy cores (monitor + random) as SystemInfo core "
@@ -46,7 +85,10 @@ RULE = ("pipelines on machines 1x1..8x8 (quick) / ..24x24 (thorough), torus / me
         "hilbert, rcm, breadth_first, sequential, rand} x radius {0,1,2,20} x methods {default, rd, oc, none} x target "
         "{None, 0, small, exact, large} x api {hand-chained, place_and_route_wrapper(SystemInfo), deprecated wrapper}. "
         "A case is non-trivial when the pipeline completed and some final table differs from the unminimised one or "
-        "some tree was repaired around dead links; distinct = distinct canonical JSON of the problem")
+        "some tree was repaired around dead links; distinct = distinct canonical JSON of the problem. Model-pipeline "
+        "stream: the same problem generator with placer = sequential, api = hand-chained, every radius / method chain / "
+        "target, router draws through the recording FakeRandom; 250 (quick) / 3000 (thorough) problems, every fourth on a "
+        "machine with 15-40% dead links")
 
 PLACERS = ["sa-python", "sa-c", "hilbert", "rcm", "breadth_first", "sequential", "rand"]
 RADII = [0, 1, 2, 20]
@@ -812,6 +854,240 @@ def shrink(ctx, prob, key, budget_s=40.0):
 
 
 # --------------------------------------------------------------------------------------------
+# the composed MODEL pipeline (Lean `Rig.C01Pipe.modelPipeline`, the subject of
+# `model_pipeline_delivers`) against the hand-chained implementation with the sequential placer
+# --------------------------------------------------------------------------------------------
+RES_INDEX = ("Cores", "SDRAM", "SRAM")          # resource numbering of the model problem
+
+
+def pipe_cfg(rng):
+    return dict(placer="sequential", radius=rng.choice(RADII), methods=rng.choice(["default", "default", "rd", "oc", "none"]),
+                target=rng.choice([None, None, None, "large", "large", "exact", "small", 0]), target_dict=rng.random() < 0.5,
+                api="manual")
+
+
+def gen_pipe_problem(rng, sizes, faulty=False):
+    prob = gen_problem(rng, sizes, pipe_cfg(rng), faulty=faulty)
+    if prob.get("c03_rseed") is None:
+        prob["c03_rseed"] = rng.randrange(1 << 30)      # the draws of the router are recorded through FakeRandom
+    prob["pipe"] = True
+    return prob
+
+
+def in_domain(prob):
+    """the generator stays inside `Rig.C01Pipe.Domain` (checked, not assumed): cores <= 18, endpoint routes are links,
+    every device vertex is pinned and its link is a dead link, key/masks pairwise non-intersecting, dictionaries"""
+    dl = set(map(tuple, prob["dead_links"]))
+    if prob["ncores"] > 18 or any(k > 18 for _, _, k in prob["exc"]):
+        return False
+    if len(set(v for v, _, _ in prob["vr"])) != len(prob["vr"]):
+        return False
+    for v, x, y, l in prob["devices"]:
+        if not (0 <= l < 6) or (x, y, l) not in dl:
+            return False
+    ks = [(n[3], n[4]) for n in prob["nets"]]
+    for i in range(len(ks)):
+        for j in range(i):
+            if (ks[i][0] & ks[j][1]) == (ks[j][0] & ks[i][1]):
+                return False
+    return True
+
+
+def run_manual_recorded(prob):
+    """hand-chained place (sequential) -> allocate -> route -> routing_tree_to_tables -> minimise_tables on the real
+    code, with recorders (module attributes wrapped from outside) for what `route()` draws from sets and the RNG"""
+    import rig.place_and_route as pr
+    from rig.place_and_route import Cores
+    from rig.place_and_route.place import sequential
+    from rig.place_and_route.route import ner
+    from rig.place_and_route.route import utils as rutils
+    from rig.routing_table import routing_tree_to_tables, minimise_tables
+    import rig.geometry as geometry
+    cfg = prob["cfg"]
+    o = build(prob)
+    tape = []
+    fake = c03.FakeRandom(prob["c03_rseed"], tape)
+    orig = (geometry.random, rutils.random, ner.ner_net, ner.copy_and_disconnect_tree)
+    per_net = []
+
+    def w_ner_net(source, destinations, width, height, wrap_around=False, radius=10):
+        dl = list(destinations)
+        per_net.append(dict(dests=[list(d) for d in dl], start=len(tape), order=[]))
+        return orig[2](source, dl, width, height, wrap_around, radius)
+
+    def w_copy(root, m):
+        new_root, lookup, broken = orig[3](root, m)
+        per_net[-1]["order"] = [[p[0], p[1], c[0], c[1]] for p, c in broken]
+        return new_root, lookup, broken
+    out = dict(o=o, methods=METHODS[cfg["methods"]], per_net=per_net, tape=tape)
+    geometry.random = rutils.random = fake
+    ner.ner_net, ner.copy_and_disconnect_tree = w_ner_net, w_copy
+    try:
+        out["stage"] = "place"
+        out["placements"] = sequential.place(o["vr"], o["nets"], o["machine"], o["cs"])
+        out["stage"] = "allocate"
+        out["allocations"] = pr.allocate(o["vr"], o["nets"], o["machine"], o["cs"], out["placements"])
+        out["stage"] = "route"
+        out["routes"] = pr.route(o["vr"], o["nets"], o["machine"], o["cs"], out["placements"], out["allocations"], Cores,
+                                 radius=cfg["radius"])
+        out["stage"] = "tables"
+        out["tables0"] = routing_tree_to_tables(out["routes"], o["net_keys"])
+        out["stage"] = "minimise"
+        if cfg["methods"] == "none" and cfg["target"] is None:
+            out["targets"] = "skip"
+            out["tables1"] = dict(out["tables0"])
+        else:
+            if cfg["target_dict"] or not (cfg["target"] is None or isinstance(cfg["target"], int)):
+                out["targets"] = {c: target_for(cfg, len(t)) for c, t in out["tables0"].items()}
+            else:
+                out["targets"] = cfg["target"]
+            out["tables1"] = minimise_tables(out["tables0"], out["targets"], impl_methods(out["methods"]))
+        out["status"] = "ok"
+    except (ImportError, SyntaxError):
+        raise
+    except Exception as e:      # noqa
+        out["status"] = type(e).__name__
+        out["error"] = e
+        if out["status"] not in DOCUMENTED:
+            import traceback
+            out["traceback"] = traceback.format_exc()[-1500:]
+    finally:
+        geometry.random, rutils.random, ner.ner_net, ner.copy_and_disconnect_tree = orig
+    return out
+
+
+def pipe_request(prob, out):
+    """the `pipeline` request of the Lean driver: the problem in rig's vocabulary + the recorded oracle inputs"""
+    from rig.place_and_route import Cores, SDRAM, SRAM
+    from rig.place_and_route.constraints import (LocationConstraint, SameChipConstraint, ReserveResourceConstraint,
+                                                 RouteEndpointConstraint)
+    o = out["o"]
+    ridx = {Cores: 0, SDRAM: 1, SRAM: 2}
+    vr = [[v, [[ridx[r], int(a)] for r, a in d.items()]] for v, d in o["vr"].items()]
+    m = o["machine"]
+    vec = lambda d: [int(d[Cores]), int(d[SDRAM]), int(d[SRAM])]
+    cs = []
+    for c in o["cs"]:
+        if isinstance(c, ReserveResourceConstraint):
+            cs.append({"t": "res", "r": ridx[c.resource], "start": c.reservation.start, "stop": c.reservation.stop,
+                       "c": None if c.location is None else list(c.location)})
+        elif isinstance(c, LocationConstraint):
+            cs.append({"t": "loc", "v": c.vertex, "c": list(c.location)})
+        elif isinstance(c, RouteEndpointConstraint):
+            cs.append({"t": "ep", "v": c.vertex, "route": int(c.route)})
+        elif isinstance(c, SameChipConstraint):
+            cs.append({"t": "same", "vs": list(c.vertices)})
+    per = out["per_net"]
+    tape = out["tape"]
+    oracle = []
+    for i, pn in enumerate(per):
+        end = per[i + 1]["start"] if i + 1 < len(per) else len(tape)
+        oracle.append({"dests": pn["dests"], "tape": tape[pn["start"]:end], "order": pn["order"]})
+    while len(oracle) < len(prob["nets"]):
+        oracle.append({"dests": [], "tape": [], "order": []})      # nets the implementation never reached
+    tg = out.get("targets")
+    if tg == "skip" or "targets" not in out and prob["cfg"]["methods"] == "none" and prob["cfg"]["target"] is None:
+        mini = None
+    else:
+        if "targets" not in out:        # the implementation failed before minimisation
+            tg = None
+        mini = {"methods": out["methods"],
+                "targets": {"default": None if isinstance(tg, dict) else tg,
+                            "chips": [[c[0], c[1], t] for c, t in tg.items()] if isinstance(tg, dict) else []}}
+    return {"suite": "c01pipe", "op": "pipeline", "vr": vr, "nres": 3,
+            "w": m.width, "h": m.height, "res": vec(m.chip_resources),
+            "exc": [[list(c), vec(d)] for c, d in m.chip_resource_exceptions.items()],
+            "dead": sorted(map(list, m.dead_chips)), "dead_links": [[x, y, int(l)] for x, y, l in sorted(m.dead_links)],
+            "cs": cs, "nets": [[n[0], list(n[1]), n[3], n[4]] for n in prob["nets"]], "core_res": 0,
+            "placer": {"t": "seq", "vo": None, "co": None}, "radius": prob["cfg"]["radius"],
+            "oracle": oracle, "minimise": mini}
+
+
+def pipe_expected_error(out):
+    """what the model pipeline must answer when the implementation failed at a stage"""
+    st, stage = out["status"], out.get("stage")
+    if st == "InsufficientResourceError" and stage == "place":
+        return {"err": "place", "what": "InsufficientResourceError"}
+    if st == "InvalidConstraintError" and stage == "place":
+        return {"err": "place", "what": "InvalidConstraintError"}
+    if st == "InsufficientResourceError" and stage == "allocate":
+        return {"err": "allocate"}
+    if st == "MachineHasDisconnectedSubregion":
+        return {"err": "route", "what": "Disconnected"}
+    if st == "MinimisationFailedError":
+        return {"err": "minimise"}
+    return None
+
+
+def eval_pipe_problems(ctx, probs):
+    """model pipeline = implementation, stage by stage up to the FINAL tables (exact per-chip equality)"""
+    from rig.place_and_route import Cores, SDRAM, SRAM
+    ridx = {Cores: 0, SDRAM: 1, SRAM: 2}
+    runs, reqs = [], []
+    for prob in probs:
+        out = run_manual_recorded(prob)
+        runs.append(out)
+        reqs.append(pipe_request(prob, out))
+    replies = ctx.lean(reqs) if reqs else []
+    for prob, out, r in zip(probs, runs, replies):
+        ctx.traces += 1
+        st = out["status"]
+        tags = ["pipe_status_" + st, "pipe_in_domain" if in_domain(prob) else "pipe_OUT_OF_DOMAIN"]
+        diff = None
+        if isinstance(r, dict) and "proto_error" in r:
+            diff = ("proto", r["proto_error"], "")
+        elif st == "ok":
+            if "ok" not in r:
+                diff = ("outcome", str(r)[:200], "ok")
+            else:
+                mo = r["ok"]
+                pl = [[v, [c[0], c[1]]] for v, c in mo["placement"]]
+                ipl = [[v, list(c)] for v, c in out["placements"].items()]
+                al = {v: sorted(map(tuple, va)) for v, va in mo["alloc"]}
+                ial = {v: sorted((ridx[r_], sl.start, sl.stop) for r_, sl in va.items())
+                       for v, va in out["allocations"].items()}
+                t0 = tables_c04(out["tables0"])
+                t1 = tables_c04(out["tables1"])
+                m0 = {(x, y): t for x, y, t in mo["tables0"]}
+                m1 = {(x, y): t for x, y, t in mo["tables"]}
+                dev = sorted(map(tuple, mo["dev"]))
+                idev = sorted(set((d[1], d[2], d[3]) for d in prob["devices"]))
+                if sorted(pl) != sorted(ipl):
+                    diff = ("place", pl, ipl)
+                elif pl != ipl:
+                    diff = ("place-order", pl, ipl)
+                elif al != ial:
+                    diff = ("allocate", al, ial)
+                elif m0 != t0:
+                    bad = [c for c in set(m0) | set(t0) if m0.get(c) != t0.get(c)]
+                    diff = ("tables", (bad[:3], m0.get(bad[0])), t0.get(bad[0]))
+                elif [list(c) for c in out["tables0"].keys()] != mo["chips0"]:
+                    diff = ("tables-chip-order", mo["chips0"], list(out["tables0"].keys()))
+                elif m1 != t1:
+                    bad = [c for c in set(m1) | set(t1) if m1.get(c) != t1.get(c)]
+                    diff = ("final-tables", (bad[:3], m1.get(bad[0])), t1.get(bad[0]))
+                elif dev != idev:
+                    diff = ("device-links", dev, idev)
+                if t0 != t1:
+                    tags.append("pipe_tables_changed")
+                if any(pn["order"] for pn in out["per_net"]):
+                    tags.append("pipe_repaired")
+        else:
+            want = pipe_expected_error(out)
+            if want is None:
+                diff = ("pipeline-exception", "-", "%s at %s: %s" % (st, out.get("stage"), out.get("traceback", "")[-500:]))
+            elif "ok" in r or any(r.get(k) != v for k, v in want.items()):
+                diff = ("outcome", str(r)[:200], "%s at stage %s" % (st, out.get("stage")))
+            tags.append("pipe_fail_at_" + str(out.get("stage")))
+        if diff:
+            ctx.mismatch("c01pipe." + diff[0], "model pipeline and hand-chained implementation (sequential placer) differ at "
+                         "%s: model=%s impl=%s" % (diff[0], str(diff[1])[:300], str(diff[2])[:300]), prob)
+            tags.append("pipe_mismatch_" + diff[0])
+        ctx.tag(*tags)
+        ctx.case(prob, st == "ok" and ("pipe_tables_changed" in tags or "pipe_repaired" in tags))
+
+
+# --------------------------------------------------------------------------------------------
 # entry points
 # --------------------------------------------------------------------------------------------
 SIZES_Q = [(1, 1), (1, 2), (2, 1), (1, 4), (5, 1), (2, 2), (2, 3), (2, 6), (3, 3), (3, 4), (4, 4), (5, 5), (6, 4), (7, 2),
@@ -839,7 +1115,9 @@ def run(ctx):
         "net keys are pairwise non-intersecting (documented precondition of routing_tree_to_tables)",
         "a packet that returns to a chip it already passed through is counted as circulating",
         "rig_c_sa (C annealing kernel) is an opaque binary: its placements are judged by the oracle only",
-        "the global `random` generator is seeded per case (the router draws from it)"]
+        "the global `random` generator is seeded per case (the router draws from it)",
+        "model-pipeline stream: set iteration orders (destination set, broken-link set) and the router's random draws "
+        "are recorded from the implementation and given to the model as oracle inputs (the theorem holds for all of them)"]
     ctx.extra["trusted_base"] = ["the SpiNNaker multicast router rules written in Rig.C01.visit (first match, default "
                                  "route = opposite link, drop of unmatched local packets, core bits 6..23)"]
     n = ctx.scale(1000, 12000)
@@ -853,8 +1131,21 @@ def run(ctx):
         probs.append(gen_problem(ctx.rng, sz, cfg, faulty=(i % 4 == 3)))
     for i in range(0, len(probs), 25):
         eval_problems(ctx, probs[i:i + 25])
+    # the composed model pipeline (subject of `model_pipeline_delivers`) = the hand-chained implementation
+    npipe = ctx.scale(250, 3000)
+    if ctx.extended:
+        npipe *= 4
+    pprobs = []
+    for i in range(npipe):
+        sz = sizes if (ctx.quick or ctx.rng.random() < 0.35) else SIZES_Q
+        pprobs.append(gen_pipe_problem(ctx.rng, sz, faulty=(i % 4 == 3)))
+    for i in range(0, len(pprobs), 50):
+        eval_pipe_problems(ctx, pprobs[i:i + 50])
 
 
 def replay(ctx, payload):
     ctx.extra["rule"] = RULE
-    eval_problems(ctx, [payload["case"]])
+    if payload["case"].get("pipe"):
+        eval_pipe_problems(ctx, [payload["case"]])
+    else:
+        eval_problems(ctx, [payload["case"]])
